@@ -384,3 +384,59 @@ impl TransportManager {
         peers.insert(peer, PeerContext { state, addresses });
     }
 }
+
+impl TransportManager {
+    /// Verification hook (request-response harness): like [`Self::verif_force_peer`], with every
+    /// peer state that `TransportManagerHandle::dial` distinguishes. `tag`: 0 unknown peer,
+    /// 1 disconnected with `address`, 2 connected, 3 dialing, 4 disconnected with an empty
+    /// address store, 5 disconnected with a dial record (a dial is in flight), 6 opening.
+    pub fn verif_force_peer_state(&self, peer: PeerId, tag: usize, address: Multiaddr) {
+        let mut peers = self.peers.write();
+        if tag == 0 {
+            peers.remove(&peer);
+            return;
+        }
+        let record = ConnectionRecord::new(peer, address.clone(), ConnectionId::from(0usize));
+        let mut addresses = AddressStore::new();
+        if tag != 4 {
+            addresses.insert(AddressRecord::new(&peer, address.clone(), 0));
+        }
+        let state = match tag {
+            1 | 4 => PeerState::Disconnected { dial_record: None },
+            2 => PeerState::Connected { record, secondary: None },
+            5 => PeerState::Disconnected { dial_record: Some(record) },
+            6 => PeerState::Opening {
+                addresses: std::iter::once(address).collect(),
+                connection_id: ConnectionId::from(0usize),
+                transports: std::iter::once(SupportedTransport::Tcp).collect(),
+            },
+            _ => PeerState::Dialing { dial_record: record },
+        };
+        peers.insert(peer, PeerContext { state, addresses });
+    }
+
+    /// Verification hook: fill the command channel (protocols -> manager) so that every later
+    /// `dial()` that gets as far as sending its command fails with `ChannelClogged`.
+    pub fn verif_fill_commands(&self, address: Multiaddr) {
+        while self.transport_manager_handle.dial_address(address.clone()).is_ok() {}
+    }
+
+    /// Verification hook: close the receiving side of the command channel, as when the manager
+    /// task has ended: every later `dial()` that gets as far as sending its command fails with
+    /// `TaskClosed`. The peer table stays available to [`Self::verif_force_peer_state`].
+    pub fn verif_close_commands(&mut self) {
+        self.cmd_rx.close();
+    }
+
+    /// Verification hook: empty the command channel; returns the peers of the `DialPeer`
+    /// commands that were waiting in it.
+    pub fn verif_drain_commands(&mut self) -> Vec<PeerId> {
+        let mut out = Vec::new();
+        while let Ok(command) = self.cmd_rx.try_recv() {
+            if let InnerTransportManagerCommand::DialPeer { peer } = command {
+                out.push(peer);
+            }
+        }
+        out
+    }
+}
